@@ -473,4 +473,4 @@ func runC13(s *Sim) {
 	h.stopManager()
 }
 
-func init() { register(&Engine{Prop: "C13", Run: runC13, MaxSteps: 8000}) }
+func init() { register(&Engine{Prop: "C13", Run: runC13, MaxSteps: 4000}) }
